@@ -111,7 +111,10 @@ func init() {
 			Rule: "each run = one OS process = one seeded case (1-3 workers + standbys, key-group swarm, 1-5 splits x 4-64 records, batching, DKV sizing, handler latency, paced source spanning several one-minute checkpoint intervals, fault plan) under one seeded interleaving of every goroutine of the job and the workers, RPC deliveries and clock advances; oracles = self-verifying keyed state on every handler invocation, final checkpoint read back independently, per-stream delivery log, assignment / deploy logs; non-trivial = reached the final verified checkpoint; distinct = distinct released-task sequence"}
 	}
 	specs["C01"] = cluSpec(500, 20000, "worker-killed", "final-state-verified", "job-checkpoint-published")
-	specs["C04"] = cluSpec(500, 20000, "final-state-verified", "job-checkpoint-published")
+	c04 := cluSpec(500, 20000, "final-state-verified", "job-checkpoint-published", "child-shard-handed-out")
+	c04.Real = append(c04.Real, "connectors/kinesis SourceSplitter / SplitTracker / SourceReader + AWS SDK Kinesis client (Kinesis mode, 1 of 4 runs)")
+	c04.Stub = append(c04.Stub, "Kinesis service -> the repository's kinesisfake served in-process (hook K5)")
+	specs["C04"] = c04
 	specs["C05"] = cluSpec(500, 20000, "final-state-verified")
 	specs["C14"] = cluSpec(300, 10000, "final-state-verified")
 	specs["C15"] = cluSpec(400, 15000, "final-state-verified")
